@@ -67,6 +67,9 @@ TList == /\ IsEvent("call") /\ Ev.name = "list" /\ List
                            /\ (IsData(i) => Ev.crcs[i] = (IF "hascrc" \in DOMAIN a.members[i] /\ ~a.members[i].hascrc
                                                           THEN <<70000, 70000>> ELSE a.members[i].crc))
                            /\ Ev.dirs[i] = (a.members[i].kind = "dir")         \* directory flag = what extraction creates
+                           \* the listed time: undefined stays undefined (not the previous member's), a defined one is the stored one
+                           /\ ("mtdef" \in DOMAIN Ev /\ "mtdef" \in DOMAIN a.members[i]) =>
+                                  (Ev.mtdef[i] = a.members[i].mtdef /\ Ev.mtsame[i])
 TGetInfo == IsEvent("call") /\ Ev.name = "getinfo" /\ Pure("getinfo") /\ Ev.ok /\ Ev.flag
 TNeedsPw == /\ IsEvent("call") /\ Ev.name = "needs_password" /\ NeedsPassword
             /\ Ev.ok /\ Ev.flag = a.encrypted
